@@ -57,6 +57,24 @@ def directed_stale():
     return out
 
 
+def directed_fresh_sweep():
+    """a sweep that lands between create_session and the FIRST call on the new id (`newq`: the harness makes no read after the
+    creation), with the clock moved before the creation and / or between creation and sweep: the new session is as old as its
+    creation, the older one as its last call"""
+    out = []
+    for (a, b) in [(0, 0), (0, 300), (400, 0), (200, 100), (301, 300), (0, 301), (150, 151)]:
+        ev = [("new", 0, "vs_script"), ("op", 0, "key 97 0"), ("advance", a), ("newq", 1), ("advance", b)]
+        gone = ([0] if a + b > 300 else []) + ([1] if b > 300 else [])
+        ev.append(("cleanup_stale", tuple(gone)))
+        ev += [("op", 1, "schema vs_fluid"), ("op", 1, "key 98 0"), ("op", 1, "key 32 0"), ("op", 1, "read_commit"), ("op", 0, "key 98 0"),
+               ("op", 0, "key 32 0"), ("op", 0, "read_commit"), ("ids",)]
+        # a second fresh session, swept at once with nothing in between
+        ev += [("newq", 2), ("cleanup_stale", ()), ("op", 2, "key 97 0"), ("op", 2, "commit"), ("op", 2, "read_commit")]
+        ev += [("destroy", k) for k in (0, 1, 2) if k not in gone]
+        out.append(ev)
+    return out
+
+
 def gen_multi(c, n_sessions, n_ops):
     """returns list of events: ('new',k,sid) | ('op',k,text) | ('destroy',k) | ('ids',)"""
     rng = c.rng
@@ -192,6 +210,9 @@ def to_script(rows, events):
             index.append((None, "cleanup_all"))
         elif e[0] == "advance":
             lines.append("advance %d" % e[1])            # no output line
+        elif e[0] == "newq":
+            lines.append("newq")                         # create_session with no read after it: no output line
+            cur = e[1]
         elif e[0] == "cleanup_stale":
             lines.append("cleanup_stale")
             index.append((None, "cleanup_stale " + ",".join(str(k) for k in e[1])))
@@ -216,7 +237,7 @@ def solo_events(events, k):
         ev += [("new", j, "vs_script"), ("destroy", j)]
     out = []
     for e in events:
-        if e[0] in ("new", "op", "destroy") and e[1] == k:
+        if e[0] in ("new", "newq", "op", "destroy") and e[1] == k:
             out.append(e)
         elif e[0] in ("cleanup_all", "advance", "cleanup_stale"):
             out.append(e)                 # the environment: bulk destruction, the wall clock, the staleness sweep
@@ -238,6 +259,7 @@ def run(c):
     stale_dir = directed_stale()
     if quick:
         stale_dir = c.rng.sample(stale_dir, 5)
+    stale_dir = directed_fresh_sweep() + stale_dir
     st["stale_sweeps"] = st["swept_sessions"] = 0
     for g in range(len(stale_dir) + groups):
         rows = sc.gen_table(c.rng, "abcd")
@@ -309,6 +331,20 @@ def run(c):
                 dead.clear()
             elif k in dead and "nocontext" not in l:
                 c.report("C16:dead-id:%s" % sc.op_kind(op), "a call on a destroyed session id was not refused", dict(case, op=op, line=l))
+        # live ids: the converse — a session that was created and neither destroyed nor due for the sweep (its last call, or its
+        # creation, no more than the life span ago on the supplied clock: the lists the generator computed) accepts every call
+        ended = set()
+        for (k, op), l in zip(index, impl):
+            if op.startswith("destroy "):
+                ended.add(int(op.split()[1]))
+            elif op == "cleanup_all":
+                ended |= set(range(64))
+            elif op.startswith("cleanup_stale"):
+                ended |= set(int(x) for x in op.split(" ")[1].split(",")) if " " in op and op.split(" ")[1] else set()
+            elif k is not None and k not in ended and "nocontext" in l:
+                c.report("C16:live-id-refused:%s" % sc.op_kind(op), "a call on a live session id (created, not destroyed, not stale at any sweep) was refused",
+                         dict(case, session=k, op=op, line=l))
+                break
         if len(st["samples"]) < 2:
             st["samples"].append({"events": [list(e) for e in events[:25]], "first_lines": impl[:3]})
     # ---- stock components (punctuator, ascii_composer, recognizer, key_binder, script/table translators without
@@ -480,7 +516,7 @@ def run(c):
     cov = vlib.proof_cov(audit, "lake build RimeModel.Props.C16 && #print axioms (all theorems) && forbidden-token scan"
                          + ("" if quick else " && leanchecker"), vlib.STD_TRUSTED)
     cov.update({"evaluations": st["events"], "distinct_nontrivial": len(st["nontrivial"]),
-                "rule": "groups of %d sessions on random synthetic schemas with interleaved call sequences, creations/destructions in between, calls on destroyed ids, `ids` probes, staleness sweeps (the wall clock advanced by the harness to either side of the 300 s life span, some sessions called in between; directed: every gap pair on three sessions) with calls on the swept ids; each group is run interleaved, replayed in a new process, and every session re-run solo; non-trivial = observation in a composing state (distinct lines)" % n_sessions,
+                "rule": "groups of %d sessions on random synthetic schemas with interleaved call sequences, creations/destructions in between, calls on destroyed ids, `ids` probes, sessions created without any read after them (`newq`) and swept before their first call, staleness sweeps (the wall clock advanced by the harness to either side of the 300 s life span, some sessions called in between; directed: every gap pair on three sessions) with calls on the swept ids; each group is run interleaved, replayed in a new process, and every session re-run solo; non-trivial = observation in a composing state (distinct lines)" % n_sessions,
                 "samples": st["samples"], "groups": st["groups"], "sessions_compared_solo_vs_interleaved": st["sessions"],
                 "calls_on_dead_ids": st["dead_calls"], "ids_probes": st["ids_checks"], "proof_failures": audit["failures"],
                 "staleness_sweeps": st.get("stale_sweeps", 0), "sessions_swept_as_stale": st.get("swept_sessions", 0)})
